@@ -3,6 +3,7 @@
 (* the oracle of Datatypes.  A trace is a sequence of records; record kinds:       *)
 (*   case  [dt, c, p, path, out]      out must be in Val(dt, c, p, path)           *)
 (*   rt.export / rt.wire / rt.text / rt.client  [dt, v, ...]  C02 laws on a value   *)
+(*   compat [a, b, passes]   equiv [dt, d1, d2, d2x, d3, probes]   alias [dt, before, after]   C03 *)
 (* One JVM judges a whole batch; a rejection names the violated clause.            *)
 EXTENDS Datatypes, Json, IOUtils, TLCExt, SequencesExt
 Traces == JsonDeserialize(IOEnv.TRACE_FILE)
@@ -45,18 +46,37 @@ ClientClause(e) ==           \* str(CacheItem) -> client from_string -> sent dat
     ELSE "ok"
 RtGuard(e, c) == IF InSet(e.dt, e.v, TRUE) THEN c ELSE "machinery: value outside the value set"
 
+(* C03 records *)
+CompatClause(e) ==           \* passes = a.compatible(b) returned without an exception
+    IF e.passes \in AllowedPass(e.a, e.b) THEN "ok"
+    ELSE IF e.passes THEN "compat.unsound"              \* some value valid for a is not valid for b
+    ELSE "compat.refuses-supported"
+EquivClause(e) ==            \* d1 / d2 / d2x / d3: datainfo of the type, of the rebuilt type (also with an unknown key), of the copy
+    IF Rebuild(e.d1) # e.dt THEN "describe.denotes"
+    ELSE IF e.d2 # e.d1 THEN "rebuild.datainfo"
+    ELSE IF e.d2x # e.d1 THEN "rebuild.ignore-unknown"
+    ELSE IF e.d3 # e.d1 THEN "copy.datainfo"
+    ELSE IF e.probes # <<>> THEN "equiv.probe"           \* a candidate treated differently by original / rebuilt / copy
+    ELSE "ok"
+AliasClause(e) ==            \* datainfo of the original before / after every mutable part of its copy was changed
+    IF e.after # e.before THEN "copy.shared-state" ELSE "ok"
+
 Clause(e) == CASE e.kind = "case" -> CaseClause(e)
+               [] e.kind = "compat" -> CompatClause(e)
+               [] e.kind = "equiv" -> EquivClause(e)
+               [] e.kind = "alias" -> AliasClause(e)
                [] e.kind = "rt.export" -> RtGuard(e, ExportClause(e))
                [] e.kind = "rt.wire" -> RtGuard(e, WireClause(e))
                [] e.kind = "rt.text" -> RtGuard(e, TextClause(e))
                [] e.kind = "rt.client" -> RtGuard(e, ClientClause(e))
                [] OTHER -> "unknown record kind"
 
-TInit == t \in 1 .. NT /\ l = 1 /\ dt = Traces[t][1].dt
+RecDt(e) == IF "dt" \in DOMAIN e THEN e.dt ELSE e.a
+TInit == t \in 1 .. NT /\ l = 1 /\ dt = RecDt(Traces[t][1])
 TStep == /\ l <= Len(Traces[t])
          /\ Clause(Traces[t][l]) = "ok"
          /\ l' = l + 1 /\ t' = t
-         /\ dt' = IF l < Len(Traces[t]) THEN Traces[t][l + 1].dt ELSE dt
+         /\ dt' = IF l < Len(Traces[t]) THEN RecDt(Traces[t][l + 1]) ELSE dt
 TSpec == TInit /\ [][TStep]_<<dt, t, l>>
 
 Track == TLCSet(t, IF l > TLCGet(t) THEN l ELSE TLCGet(t))
